@@ -40,6 +40,36 @@ var alphabet = []string{"a", "s", "z", "A", "S", "Z", "I", "D", "i", "d", "0", "
 
 var words = []string{"IDs", "URLs", "HTTPs", "s", "S", "ID", "Id", "id", "HTML", "Parser", "parser", "v2", "V2", "99", "Bottles", "XMLHttp", "Request", "ÜberRaschung", "ǅungla", "o'clock"}
 
+// Letters whose case mappings CHANGE the UTF-8 length (added after seeded change C19-h: title-casing a word in place, in the
+// bytes of its lower-case form).  widthChanging is computed from the unicode tables of the running toolchain: every rune for
+// which ToUpper, ToLower or ToTitle needs a different number of UTF-8 bytes than the rune itself - in both directions
+// (U+0250 (2 bytes) -> U+2C6F (3), U+023F -> U+2C7E, U+0131 dotless i (2) -> I (1), U+017F long s -> S, U+212A Kelvin (3) -> k (1),
+// U+1E9E (3) -> U+00DF (2), U+023A (2) -> U+2C65 (3), ...).  fullCasing are the letters whose FULL case mapping (SpecialCasing.txt, used by
+// x/text/cases) has more runes than the letter: a converter may lawfully produce any text for them, but must return.
+var widthChanging = func() []rune {
+	var out []rune
+	for r := rune(0x80); r < 0x20000; r++ {
+		n := utf8.RuneLen(r)
+		if n < 0 {
+			continue
+		}
+		if utf8.RuneLen(unicode.ToUpper(r)) != n || utf8.RuneLen(unicode.ToLower(r)) != n || utf8.RuneLen(unicode.ToTitle(r)) != n {
+			out = append(out, r)
+		}
+	}
+	return out
+}()
+
+var fullCasing = []rune("ßŉǰΐΰևẖẗẘẙẚẞﬀﬁﬂﬃﬄﬅﬆﬓﬔﬕﬖﬗİᾳῃῳᾼῌῼᾀᾈῒῗῤῶὐὒ")
+
+// widthWords: the letter at the start of the input, after a separator, after a lower-case and an upper-case run, after a
+// digit, mid-word, at the end, doubled, and as the whole input - each position decides whether the letter starts a word that a
+// camel-case converter title-cases, lower-cases or keeps.
+func widthWords(c rune) []string {
+	x := string(c)
+	return []string{x, x + "bc", "x_" + x + "bc", "my" + x + "Field", "ab" + x + "cd", "AB" + x + "cd", "x " + x, "9" + x + "z", "a-" + x + "-" + x, x + x, "id_" + x, "AbC" + x}
+}
+
 func (prop) Generate(r *core.RNG, tier string) []json.RawMessage {
 	n := 1500
 	if tier == "thorough" {
@@ -54,6 +84,51 @@ func (prop) Generate(r *core.RNG, tier string) []json.RawMessage {
 	for _, s := range []string{"IDsOfUser", "listURLsByName", "HTTPs_proxy", "ABsC", "ABs", "AsB", "", "_", "_id", "-x", ".hidden", " a", "a", "A", "1", "PDFLoader", "AB1c", "a1b", "ID", "userID",
 		"__init__", "a__b", "\xff", "a\xffb", "\xc3", "İstanbul", "ǅ", "a-b_c d", "99Bottles", "BöseÜberraschung", "BadUTF8\xe2\xe2\xa1"} {
 		add(s)
+	}
+	// every letter whose case mapping changes the UTF-8 length (simple mappings, computed) or the number of runes (full
+	// mappings): quick = every letter in every position for the letters named in the notes and 3 random positions for the
+	// others, thorough = all.
+	named := map[rune]bool{}
+	for _, c := range "ɐɑȿɫɥʞⱯȾȺıſKẞİßÅΩιŉ" {
+		named[c] = true
+	}
+	for _, c := range append(append([]rune{}, widthChanging...), fullCasing...) {
+		ws := widthWords(c)
+		if !named[c] && tier != "thorough" {
+			for i := len(ws) - 1; i > 0; i-- {
+				j := r.Intn(i + 1)
+				ws[i], ws[j] = ws[j], ws[i]
+			}
+			ws = ws[:3]
+		}
+		for _, w := range ws {
+			add(w)
+		}
+	}
+	for i := 0; i < n/5; i++ { // words and separators with width-changing letters at random places
+		var b strings.Builder
+		for j, m := 0, 1+r.Intn(4); j < m; j++ {
+			if j > 0 && r.Chance(60) {
+				b.WriteString(core.Pick(r, []string{"_", "-", ".", " ", "/"}))
+			}
+			w := []rune(core.Pick(r, words))
+			c := core.Pick(r, widthChanging)
+			if r.Chance(15) {
+				c = core.Pick(r, fullCasing)
+			}
+			switch r.Intn(4) {
+			case 0:
+				w[0] = c
+			case 1:
+				w = append([]rune{c}, w...)
+			case 2:
+				w[r.Intn(len(w))] = c
+			default:
+				w = append(w, c)
+			}
+			b.WriteString(string(w))
+		}
+		add(b.String())
 	}
 	for i := 0; i < n; i++ {
 		var b strings.Builder
